@@ -7,3 +7,11 @@ use super::*;
 pub(crate) fn raw_alt(std: LocalTimeType, dst: LocalTimeType, dst_start: RuleDay, dst_start_time: i32, dst_end: RuleDay, dst_end_time: i32) -> AlternateTime {
     AlternateTime { std, dst, dst_start, dst_start_time, dst_end, dst_end_time }
 }
+
+/// `RuleDay::unix_time` spelled out from its two real parts (real `transition_date`, real `days_since_unix_epoch`): used by stubs that
+/// make the year concrete by a case split, so that the per-year calendar arithmetic constant-folds (C04 layer 1 decides that the real
+/// `RuleDay::unix_time` equals the notation's day for every year, which is what both spellings compute)
+pub(crate) fn unix_time_from_parts(d: &RuleDay, year: i32, day_time_in_utc: i64) -> i64 {
+    let (month, month_day) = d.transition_date(year);
+    days_since_unix_epoch(year, month, month_day) * SECONDS_PER_DAY + day_time_in_utc
+}
